@@ -527,7 +527,7 @@ def r11_12(ctx) -> None:
                     ok = a is not None and norm(a) == pn
                     ctx.check(ok, "R11.12", fn, s.node, f"{fn.short} -> {c.short} :: {pn}", f"{fn.short} does not pass its `{pn}` argument on to {c.short} "
                               f"({'argument omitted' if a is None else 'passes ' + norm(a)})", f"{pn}={pn}", construct=f"{pn} forwarding {fn.short} -> {c.short}")
-    ctx.count("R11.12", n, 15, "option forwarding call sites")
+    ctx.count("R11.12", n, 26, "option forwarding call sites")
 
 
 def r11_8(ctx) -> None:
